@@ -6,6 +6,7 @@ sys.path.insert(0, os.path.dirname(os.path.abspath(__file__)))
 import vlib
 
 JOB = {"C04", "C06", "C07", "C09", "C10"}
+WORK = {"C01", "C02", "C15"}
 
 
 def main():
@@ -19,6 +20,9 @@ def main():
         if prop in JOB:
             import jobcheck
             violations = jobcheck.run(prop, a.tier, a.replay)
+        elif prop in WORK:
+            import workcheck
+            violations = workcheck.run(prop, a.tier, a.replay)
         else:
             import purecheck
             violations = purecheck.run(prop, a.tier, a.replay)
@@ -35,10 +39,13 @@ def main():
         if k:
             print("KNOWN-FINDING: property=%s %s" % (prop, k[0]["what"]))
             continue
-        print("VIOLATION property=%s replay=%s" % (prop, path))
-        print("  " + what)
         reported += 1
+        if reported <= 25:
+            print("VIOLATION property=%s replay=%s" % (prop, path))
+            print("  " + what)
     if reported:
+        if reported > 25:
+            print("(%d violations in all; the first 25 are listed, every replay file is under replays/)" % reported)
         return 1
     print("OK property=%s tier=%s" % (prop, a.tier))
     return 0
